@@ -3,6 +3,8 @@ package props
 import (
 	"fmt"
 
+	"github.com/advancedclimatesystems/gonnx/onnx"
+
 	"verif/harness/gen"
 	"verif/harness/mon"
 	"verif/harness/ref"
@@ -33,10 +35,11 @@ type program struct {
 	Feed    map[string]*ref.T
 	Inits   []mon.GInit
 	Nodes   []progNode
-	Values  map[string]*ref.T // reference value of every named tensor
-	Order   []string          // names in production order (inputs, inits, node outputs)
-	IR      int64             // ir_version of the rendered model (0 = the usual one)
-	Shadow  map[string]bool   // initializers that are also graph inputs
+	Values  map[string]*ref.T          // reference value of every named tensor
+	Order   []string                   // names in production order (inputs, inits, node outputs)
+	IR      int64                      // ir_version of the rendered model (0 = the usual one)
+	Opsets  []*onnx.OperatorSetIdProto // opset imports of the rendered model (nil = the usual one)
+	Shadow  map[string]bool            // initializers that are also graph inputs
 	nameSeq int
 	r       *gen.R
 	// BatchAxis tracks, for C16 programs, the batch axis of every named tensor (-1: none / weight).
@@ -117,7 +120,7 @@ func (p *program) addNode(n progNode, outHints ...string) ([]string, bool) {
 
 // Graph renders the program; outputs lists the declared graph outputs.
 func (p *program) Graph(outputs []string) *mon.Graph {
-	g := &mon.Graph{Inputs: p.Inputs, Inits: p.Inits, IR: p.IR}
+	g := &mon.Graph{Inputs: p.Inputs, Inits: p.Inits, IR: p.IR, Opsets: p.Opsets}
 	for _, n := range p.Nodes {
 		g.Nodes = append(g.Nodes, n.G)
 	}
@@ -703,7 +706,12 @@ var builderNames = []string{"Relu", "Tanh", "Sigmoid", "Abs", "Sin", "Atan", "Ad
 // genProgram draws a program of up to maxNodes nodes. A small palette of
 // builders is chosen per program so that operator types repeat (with different
 // attributes).
-func genProgram(r *gen.R, maxNodes int) *program {
+func genProgram(r *gen.R, maxNodes int) *program { return genProgramX(r, maxNodes, false) }
+
+// genProgramX: with rich set (C01), an override of a defaulted input whose declaration leaves
+// the extents open may have another shape than the default (the nodes are built on the
+// override), and the default-domain opset import is spelled in the ways the IR allows.
+func genProgramX(r *gen.R, maxNodes int, rich bool) *program {
 	p := newProgram(r)
 	// graph inputs: a rank-2, a rank-3 and/or a rank-4 tensor so that every family can attach
 	kinds := r.Perm(3)[:r.Range(1, 3)]
@@ -743,8 +751,19 @@ func genProgram(r *gen.R, maxNodes int) *program {
 		p.Inputs = append(p.Inputs, decl)
 		p.Shadow[name] = true
 		p.Values[name] = def
+		open := decl.NoShape || decl.NoType || (len(decl.Dims) > 0 && decl.Dims[0].Param != "")
 		if r.Bool() { // caller overrides the default
-			ov := uniformT(r, ref.F32, def.Shape, 2)
+			shape := def.Shape
+			if rich && open && len(shape) > 0 && r.Bool() {
+				// the default only supplies the value: a declaration with symbolic (or no) extents
+				// admits an override of other extents than the default's
+				shape = append([]int{}, shape...)
+				shape[r.Intn(len(shape))] = r.Range(1, 5)
+				if r.Chance(0.3) {
+					shape[0] = r.Range(1, 5)
+				}
+			}
+			ov := uniformT(r, ref.F32, shape, 2)
 			p.Feed[name] = ov
 			p.Values[name] = ov
 		}
@@ -753,6 +772,20 @@ func genProgram(r *gen.R, maxNodes int) *program {
 	}
 	if r.Chance(0.3) { // what Run computes does not depend on the IR version the file declares
 		p.IR = int64(r.PickInt(1, 2, 3, 4, 6, 8, 9, 10, -1))
+	}
+	if rich && r.Chance(0.25) { // the default domain may be spelled "" or "ai.onnx"; other domains have their own versions
+		switch r.Intn(5) {
+		case 0:
+			p.Opsets = []*onnx.OperatorSetIdProto{{Domain: "ai.onnx", Version: 13}}
+		case 1:
+			p.Opsets = []*onnx.OperatorSetIdProto{{Domain: "", Version: 13}, {Domain: "ai.onnx.ml", Version: int64(r.Range(1, 3))}}
+		case 2:
+			p.Opsets = []*onnx.OperatorSetIdProto{{Domain: "ai.onnx.ml", Version: int64(r.Range(1, 3))}, {Domain: "ai.onnx", Version: 13}}
+		case 3:
+			p.Opsets = []*onnx.OperatorSetIdProto{{Domain: "com.example.custom", Version: 1}, {Domain: "", Version: 13}}
+		default:
+			p.Opsets = []*onnx.OperatorSetIdProto{{Domain: "", Version: 13}, {Domain: "", Version: int64(r.Range(1, 13))}}
+		}
 	}
 	palette := make([]string, r.Range(2, 5))
 	for i := range palette {
